@@ -352,16 +352,36 @@ def rule_r5(prog, res) -> None:
     """degrees flag travels unchanged from the constructors to chunk creation"""
     create = prog.func("DataChunk.create")
     res.touch(create)
-    # create converts both coordinate columns, and only when degrees is true
-    conv = [x for x in walk_no_nested(create.node) if isinstance(x, ast.Assign) and isinstance(x.value, ast.Call) and (dotted(x.value.func) or "").endswith("deg2rad")]
-    cols = sorted({t.slice.value for x in conv for t in x.targets if isinstance(t, ast.Subscript) and isinstance(t.slice, ast.Constant)})
-    same_col = all(isinstance(x.targets[0], ast.Subscript) and unparse(x.targets[0]) == unparse(x.value.args[0]) for x in conv)
-    cfg = cfg_of(create.node)
-    guarded = conv and all(any("degrees" in unparse(t) and pol for t, pol in cfg.guards(n)) for x in conv for n in cfg.nodes_of(x))
-    if cols == ["dec", "ra"] and same_col and guarded:
-        res.ok("C02.R5", res.site(create, "deg2rad"), "ra and dec are converted in place, exactly when degrees is true")
+    # create converts both coordinate columns in place, and only when degrees is true: decided on the column
+    # stores of every path with degrees true resp. false (literal loops are unrolled, helpers looked through)
+    from .. import symx
+
+    def conversions(path):
+        out = []
+        for ev in path.events:
+            if ev.kind == "store" and isinstance(ev.expr, ast.Subscript) and isinstance(ev.value, ast.Call) and (dotted(ev.value.func) or "").endswith("deg2rad"):
+                out.append(ev)
+        return out
+
+    pol = symx.inline_private_helpers(prog)
+    p_on = [p for p in symx.explore(prog, create, env={"degrees": True}, inline=pol) if p.outcome != "raise"]
+    p_off = [p for p in symx.explore(prog, create, env={"degrees": False}, inline=pol) if p.outcome != "raise"]
+    if not p_on or not p_off:
+        raise AnalysisError("C02.R5: DataChunk.create has no returning path")
+    bad = None
+    for p in p_on:
+        conv = conversions(p)
+        cols = sorted(unparse(ev.expr.slice) for ev in conv)
+        in_place = all(ev.value.args and unparse(ev.value.args[0]) == unparse(ev.expr) for ev in conv)
+        if cols != ["'dec'", "'ra'"] or not in_place:
+            bad = f"with degrees true the converted columns are {cols} (in place={in_place})"
+            break
+    if bad is None and any(conversions(p) for p in p_off):
+        bad = "coordinates are converted although degrees is false"
+    if bad is None:
+        res.ok("C02.R5", res.site(create, "deg2rad"), f"ra and dec are converted in place, exactly when degrees is true ({len(p_on)}+{len(p_off)} paths)")
     else:
-        res.violation("C02.R5", create, create.node, f"degree->radian conversion is not applied to exactly ra and dec under `if degrees` (columns {cols}, in place={same_col}, guarded={bool(guarded)})", key_extra="deg2rad-shape")
+        res.violation("C02.R5", create, create.node, f"degree->radian conversion is not applied to exactly ra and dec under `if degrees`: {bad}", key_extra="deg2rad-shape")
     # readers: self.degrees = degrees ; create(..., degrees=self.degrees)
     dr = prog.find_class("DataReader")
     init = dr.methods["__init__"]
@@ -509,42 +529,62 @@ def rule_r6(prog, res) -> None:
 
 
 def rule_r7(prog, res) -> None:
-    """group-by alignment"""
+    """group-by alignment, decided on the fully substituted expression that groupby yields:
+    zip(unique(K[argsort(K)], return_index=True)[0], split(V[argsort(K)], unique(K[argsort(K)], return_index=True)[1][1:]))"""
+    from .. import symx
+
     gb = prog.func("groupby", module="yaw.utils.misc")
     res.touch(gb)
-    fn = gb.node
     keys, vals = gb.param_names()[:2]
-    sort_idx = [x for x in walk_no_nested(fn) if isinstance(x, ast.Assign) and isinstance(x.value, ast.Call) and (dotted(x.value.func) or "").endswith("argsort")]
-    if len(sort_idx) != 1 or not (sort_idx[0].value.args and isinstance(sort_idx[0].value.args[0], ast.Name) and sort_idx[0].value.args[0].id == keys):
-        raise AnalysisError("C02.R7: groupby no longer sorts by argsort(keys) (idiom not recognised)")
-    idx = sort_idx[0].targets[0].id
-    perm = {}
-    for x in walk_no_nested(fn):
-        if isinstance(x, ast.Assign) and isinstance(x.value, ast.Subscript) and isinstance(x.value.value, ast.Name) and isinstance(x.value.slice, ast.Name) and x.value.slice.id == idx:
-            perm[x.value.value.id] = x.targets[0].id
-    if keys in perm and vals in perm:
-        res.ok("C02.R7", res.site(gb, "permutation"), "keys and records are permuted by the same argsort index")
-    else:
-        res.violation("C02.R7", gb, fn, "keys and records are not permuted by the same index: records are attributed to the wrong patch", key_extra="groupby-permutation")
+    paths = symx.explore(prog, gb, inline=symx.inline_private_helpers(prog))
+    ys = [ev for p in paths for ev in p.events if ev.kind == "yield"] + [ev for p in paths if p.outcome == "return" and p.value is not None for ev in [symx.Event("yield", p.value, None, p.node, gb)]]
+    if len(paths) != 1 or len(ys) != 1:
+        raise AnalysisError(f"C02.R7: groupby no longer yields one zipped expression on a single path ({len(paths)} paths, {len(ys)} yields): idiom not recognised")
+    E = ys[0].expr
+
+    def last(call) -> str:
+        return (dotted(call.func) or unparse(call.func)).split(".")[-1] if isinstance(call, ast.Call) else ""
+
+    if not (last(E) == "zip" and len(E.args) == 2):
+        raise AnalysisError("C02.R7: groupby does not yield zip(keys, groups): idiom not recognised")
+    U, S = E.args
+    if last(S) != "split" or len(S.args) != 2:
+        if last(U) == "split":
+            res.violation("C02.R7", gb, ys[0].node, "groupby yields (records, key) instead of (key, records)", key_extra="groupby-split")
+            return
+        raise AnalysisError("C02.R7: groups are not produced by numpy.split: idiom not recognised")
+    Y, P = S.args
+
+    def sorted_by_argsort(x, base: str):
+        """x == base[argsort(keys)] -> the index expression text, else None"""
+        if isinstance(x, ast.Subscript) and isinstance(x.value, ast.Name) and x.value.id == base and last(x.slice) == "argsort" and x.slice.args and not x.slice.keywords:
+            return unparse(x.slice)
+        if isinstance(x, ast.Subscript) and isinstance(x.value, ast.Name) and x.value.id == base and last(x.slice) == "argsort" and x.slice.args:
+            return unparse(x.slice)
+        return None
+
+    def unique_part(x, idx: int):
+        """x == unique(X, return_index=True)[idx] -> X"""
+        if isinstance(x, ast.Subscript) and isinstance(x.slice, ast.Constant) and x.slice.value == idx and last(x.value) == "unique" and x.value.args:
+            ri = kwarg(x.value, "return_index")
+            if isinstance(ri, ast.Constant) and ri.value is True and len(x.value.keywords) == 1:
+                return x.value.args[0]
+        return None
+
+    iy = sorted_by_argsort(Y, vals)
+    Xu = unique_part(U, 0)
+    ok_split = isinstance(P, ast.Subscript) and isinstance(P.slice, ast.Slice) and isinstance(P.slice.lower, ast.Constant) and P.slice.lower.value == 1 and P.slice.upper is None and P.slice.step is None
+    Xp = unique_part(P.value, 1) if ok_split else None
+    ix = sorted_by_argsort(Xu, keys) if Xu is not None else None
+    sort_arg_ok = ix is not None and ix == iy and isinstance(Xu.slice.args[0], ast.Name) and Xu.slice.args[0].id == keys
+    if iy is None or ix is None or not sort_arg_ok:
+        res.violation("C02.R7", gb, ys[0].node, f"keys and records are not permuted by the same argsort(keys) index (keys: {unparse(Xu) if Xu is not None else unparse(U)[:50]}, records: {unparse(Y)[:50]}): records are attributed to the wrong patch", key_extra="groupby-permutation")
         return
-    uq = [x for x in walk_no_nested(fn) if isinstance(x, ast.Assign) and isinstance(x.value, ast.Call) and (dotted(x.value.func) or "").endswith("unique")]
-    ok = False
-    if len(uq) == 1 and isinstance(uq[0].targets[0], ast.Tuple) and len(uq[0].targets[0].elts) == 2:
-        u, split_idx = (e.id for e in uq[0].targets[0].elts)
-        ri = kwarg(uq[0].value, "return_index")
-        src = uq[0].value.args[0]
-        if isinstance(ri, ast.Constant) and ri.value is True and isinstance(src, ast.Name) and src.id == perm[keys]:
-            for c in calls_in(gb):
-                if (dotted(c.func) or "").endswith("split") and len(c.args) == 2:
-                    a0, a1 = c.args
-                    if isinstance(a0, ast.Name) and a0.id == perm[vals] and isinstance(a1, ast.Subscript) and isinstance(a1.value, ast.Name) and a1.value.id == split_idx and isinstance(a1.slice, ast.Slice) and isinstance(a1.slice.lower, ast.Constant) and a1.slice.lower.value == 1 and a1.slice.upper is None:
-                        zz = [z for z in calls_in(gb) if isinstance(z.func, ast.Name) and z.func.id == "zip"]
-                        if zz and isinstance(zz[0].args[0], ast.Name) and zz[0].args[0].id == u and zz[0].args[1] is c:
-                            ok = True
-    if ok:
+    res.ok("C02.R7", res.site(gb, "permutation"), "keys and records are permuted by the same argsort index")
+    if Xp is not None and unparse(Xp) == unparse(Xu):
         res.ok("C02.R7", res.site(gb, "split"), "sorted records are split at the first-occurrence indices [1:] of the sorted unique keys and zipped with them")
     else:
-        res.violation("C02.R7", gb, fn, "sorted records are not split exactly at the boundaries of the sorted unique keys", key_extra="groupby-split")
+        res.violation("C02.R7", gb, ys[0].node, "sorted records are not split exactly at the boundaries of the sorted unique keys", key_extra="groupby-split")
 
 
 def rule_r8(prog, res) -> None:
